@@ -373,6 +373,45 @@ func init() {
 						}
 						nsib++
 						key := fmt.Sprintf("func=%s site=NewPack#%d request-changes-filtered", prog.FnName(fn), nsib)
+						// a filter helper of the package: f(reqPack.Changes, stored.ClientSeq) whose result is built by
+						// appends of its list parameter's elements, each on the edge ClientSeq > its threshold parameter
+						if hc, isC := prog.Strip(arg).(*ssa.Call); isC && hc.Call.StaticCallee() != nil && prog.PkgOf(hc.Call.StaticCallee()) == prog.PkgOf(fn) && len(hc.Call.StaticCallee().Blocks) > 0 {
+							h := hc.Call.StaticCallee()
+							var thr *ssa.Parameter
+							for i, a := range hc.Call.Args {
+								if i < len(h.Params) && cmp.R.match(a) {
+									thr = h.Params[i]
+								}
+							}
+							if thr != nil {
+								hcmp := Cmp{L: vpCall(clientSeqM), R: VP{"the threshold parameter", func(v ssa.Value) bool { return prog.Strip(v) == ssa.Value(thr) }}, Want: GT}
+								okAll, any := true, false
+								for _, r := range prog.Returns(h) {
+									if len(r.Results) == 0 {
+										continue
+									}
+									for _, ap := range builtinCalls(h, "append") {
+										if !prog.DependsOn(r.Results[0], func(w ssa.Value) bool { return w == ssa.Value(ap) }) && !prog.Reaches(r.Results[0], func(w ssa.Value) bool { return w == ssa.Value(ap) }) {
+											continue
+										}
+										any = true
+										if !x.quietGuarded(ap, []Cmp{hcmp}) {
+											okAll = false
+										}
+									}
+									// the list itself is never the result
+									for _, pm := range h.Params {
+										if _, isSl := pm.Type().Underlying().(*types.Slice); isSl && prog.Strip(r.Results[0]) == ssa.Value(pm) {
+											okAll = false
+										}
+									}
+								}
+								if any {
+									x.check(okAll, key, x.pos(c), "only changes with ClientSeq > the stored checkpoint's ClientSeq are applied (selected by "+prog.FnName(h)+")", "the helper "+prog.FnName(h)+" that selects the request changes for the rebuilt document does not select by ClientSeq > its threshold")
+									continue
+								}
+							}
+						}
 						if prog.Reaches(arg, isReqChanges) {
 							x.fail(key, x.pos(c), "the whole request list (reqPack.Changes) is applied to the rebuilt document: the changes of a retried request that an earlier attempt already stored are in that document already and are applied a second time (the snapshot counts the edit twice)")
 							continue
